@@ -265,9 +265,9 @@ func exploreLock(c *explore.Ctx, sc lockScenario, scratch string, deadline time.
 			tr := runLock(sc, scratch, n, r.X.Choices, true)
 			key := lockKey(class, sc)
 			v := &explore.Violation{
-				Key:  key,
-				What: fmt.Sprintf("lock scenario %s, schedule %v: %s; system-call trace: %v; events: %v", sc.describe(), r.X.Choices, msg, tr.X.Trace, tr.Events),
-				Size: len(sc.describe()) + len(r.X.Choices),
+				Key:    key,
+				What:   fmt.Sprintf("lock scenario %s, schedule %v: %s; system-call trace: %v; events: %v", sc.describe(), r.X.Choices, msg, tr.X.Trace, tr.Events),
+				Size:   len(sc.describe()) + len(r.X.Choices),
 				Replay: map[string]interface{}{"kind": "lock13", "name": sc.Name, "init": sc.Init, "progs": sc.Progs, "choices": r.X.Choices, "class": class, "observed": msg, "trace": tr.X.Trace, "events": tr.Events},
 			}
 			if c.IsKnown(key) {
